@@ -129,5 +129,35 @@ fn main() {
             }
         }
     }
-    println!("AGREE cases={} inputs={} comparisons={}", cases().len(), all.len(), checked);
+    // A13' (what std's str::parse::<u64> answers) and A16's dec_text (what `{}` prints for a u64), as the axioms state them
+    let mut std_checked = 0u64;
+    let digs: Vec<char> = "0189+-a ".chars().collect();
+    let mut strs: Vec<String> = vec![String::new()];
+    let mut fr: Vec<String> = vec![String::new()];
+    for _ in 0..6 { let mut nx = vec![]; for s in &fr { for c in &digs { let mut t = s.clone(); t.push(*c); nx.push(t); } } strs.extend(nx.iter().cloned()); fr = nx; }
+    for t in ["18446744073709551615", "18446744073709551616", "018446744073709551615", "99999999999999999999", "00000000000000000000000000000000000000001", "900719925474099", "+5", "+", "-0", "１２"] { strs.push(t.to_string()); }
+    for t in &strs {
+        let got = t.parse::<u64>().ok();
+        let all_digits = !t.is_empty() && t.chars().all(|c| c.is_ascii_digit());
+        if all_digits {
+            // ax_parse_u64_digits: Some(value) iff the decimal value fits
+            let mut v: u128 = 0; let mut over = false;
+            for c in t.chars() { v = v * 10 + (c as u128 - '0' as u128); if v > u64::MAX as u128 { over = true; v = u64::MAX as u128 + 1; } }
+            let want = if over { None } else { Some(v as u64) };
+            if got != want { println!("DISAGREE std u64 parse input={:?} std={:?} axiom={:?}", t, got, want); std::process::exit(1); }
+        } else if t.chars().any(|c| !c.is_ascii_digit() && c != '+') {
+            // ax_parse_u64_nondigit: None
+            if got.is_some() { println!("DISAGREE std u64 parse input={:?} std={:?} axiom=None", t, got); std::process::exit(1); }
+        }
+        std_checked += 1;
+    }
+    let mut n: u64 = 0;
+    for k in 0..200000u64 {
+        let txt = format!("{}", n);
+        if txt.is_empty() || !txt.chars().all(|c| c.is_ascii_digit()) || txt.parse::<u64>() != Ok(n) { println!("DISAGREE dec_text n={} text={:?}", n, txt); std::process::exit(1); }
+        std_checked += 1;
+        n = if k < 70000 { n + 1 } else { n.wrapping_mul(6364136223846793005).wrapping_add(1442695040888963407) };
+    }
+    for n in [u64::MAX, u64::MAX - 1, 900719925474099, 900719925474100, 1u64 << 32, 1u64 << 63] { if format!("{}", n).parse::<u64>() != Ok(n) { std::process::exit(1); } }
+    println!("AGREE cases={} inputs={} comparisons={} std_axiom_checks={}", cases().len(), all.len(), checked, std_checked);
 }
